@@ -22,7 +22,7 @@ MIN = {"quick": {"slice:has_interaction(u,v,t)": 50000, "slice:type": 3000, "sli
 ALLEN = ("before", "meets", "overlaps", "starts", "during", "finishes", "equals", "finished-by", "contains",
          "started-by", "overlapped-by", "met-by", "after")
 REQUIRED_CELLS = {t: tuple("allen:" + a for a in ALLEN) + ("class:DynGraph", "class:DynDiGraph", "form:dn.",
-                                                           "form:single-instant", "window:misses-everything", "src:long-timeline")
+                                                           "form:single-instant", "window:misses-everything", "src:long-timeline", "window:ends-at-0", "window:bool-bounds")
                   for t in ("quick", "thorough")}
 
 
@@ -202,7 +202,8 @@ def run(ctx, dn):
     while ctx.time_left() > 1:
         directed = rng.random() < 0.5
         if k % 12 == 5:
-            prog, fam = gen.long_timeline_program(rng, directed), dict(long_timeline=True)
+            prog, fam = gen.long_timeline_program(rng, directed, nruns=rng.choice((None, (33, 45)))), \
+                dict(long_timeline=True)
             ctx.cell("src:long-timeline")
         else:
             prog, fam = gen.random_program(rng, lambda: Model(directed, True), directed=directed)
@@ -222,6 +223,12 @@ def run(ctx, dn):
                 ctx.cell("allen:" + rel)
                 ws.append((w[0], w[1], rng.choice(("method", "method", "dn."))))
         ids = m.ids()
+        if ids[0] < 0 <= ids[-1]:
+            ws.append((ids[0], 0, rng.choice(("method", "dn."))))        # an upper bound that happens to be falsy
+            ctx.cell("window:ends-at-0")
+        if 0 in ids or 1 in ids:
+            ws.append((False, True, "method"))                             # False/True are the instants 0/1
+            ctx.cell("window:bool-bounds")
         ws.append((ids[-1] + 3, ids[-1] + 5, "method"))
         ws.append((rng.choice(ids), None, "single-instant"))
         one_graph(ctx, dn, G, m, ws)
